@@ -200,7 +200,7 @@ class C14(Prop):
     pid = "C14"
     prop_file = "Props/C14.v"
     module = "Props.C14"
-    gen_deps = ["Table", "Style", "Palette", "Svg", "ParserFn", "WinconFn", "LossyFn", "SvgFn"]
+    gen_deps = ["Table", "Style", "Palette", "Svg", "ParserFn", "WinconFn", "LossyFn", "SvgFn", "HtmlEscapeFn"]
     harness = ("h-render", "hrender")
     nontrivial_rule = ("cases: C07's in-grammar styled texts salted with XML specials and line ends; directed texts (XML-special characters and look-alike markup, "
                        "wide / zero-width / boundary characters, C0 controls that are executed but not printed, LF / CR LF / empty lines / CR separated from LF by a "
@@ -209,8 +209,12 @@ class C14(Prop):
                        "x {VGA, Win10, random palettes} x six default-colour pairs x background on/off; U+000C, U+FFFE, U+FFFF excluded; carriage returns that are NOT directly before a newline (lone CR, CR CR LF, CR / style change / CR LF, CR at the end) included.  "
                        "Four observations per input (recovered document, recovered text, recovered class pieces against the specification's, raw bytes).  "
                        "non-trivial = distinct input whose recovered document has a colour or effect rule in its style sheet")
-    trusted = ["third-party html-escape (encode_text) and unicode-width: the first is modelled (& < >) and tied by the byte comparison, the second is an oracle "
-               "(width attribute, length of background fills) that is not compared",
+    trusted = ["third-party html-escape 0.2.13 (encode_text): TRANSLATED from the cargo registry source of the version Cargo.lock pins (tools/gen_fn_htmlescape.py: "
+               "the macro_rules tables escape_impl! / encode_impl! expanded from their own text by tools/rs2v/mexpand.py, then tools/rs2v) and proved equal to "
+               "the model's svg_encode_text on every byte string and, through UTF-8, on every code-point string (Proofs/HtmlEscapeGen.v, "
+               "c14_translated_htmlescape_*); trusted there: the macro expander, a &str / String / Cow<str> read as its UTF-8 bytes (from_utf8_unchecked, "
+               "String::from_utf8_unchecked, Cow::from = identities), Vec::extend_from_slice = append; the byte comparison stays as the second tie",
+               "third-party unicode-width: an oracle (width attribute, length of background fills) that is not compared",
                "expat (Python binding) as the independent XML parser; vlib/svgparse.py (structure recovery from parse events)"]
     assumptions = ["visible text consists of XML 1.0 characters (no U+000C, U+FFFE, U+FFFF); the input is a Rust &str (UTF-8)",
                    "the link from the model's runs to the SGR specification is C07's (in-grammar SGR sequences)"]
